@@ -18,17 +18,30 @@ Plans == { <<>>,
            <<H("handshake"), B("handshake", 2), H("auth"), B("auth", 1)>>,
            <<H("handshake"), B("handshake", 3), H("handshake"), B("handshake", 1)>> }
 
+\* pipelined requests: every command with its valid body, plus a wrong key and unsupported handshakes
+\* (leave only as the last request of a batch: the agent is gone afterwards and the trace ends)
+BReqs == { <<c, 1>> : c \in Cmds } \cup { <<"auth", 0>>, <<"handshake", 0>>, <<"handshake", 2>> }
+BKey  == { <<"auth", 1>>, <<"auth", 0>>, <<"handshake", 1>>, <<"stats", 1>>, <<"event", 1>> }
+BatchPlans == {  \* a rejected command, the right key and a command in ONE write (and relatives)
+  <<H("handshake"), B("handshake", 1), [a |-> "b3", r |-> << <<"members", 1>>, <<"auth", 1>>, <<"stats", 1>> >>]>>,
+  <<H("handshake"), B("handshake", 1), [a |-> "b3", r |-> << <<"event", 1>>, <<"auth", 1>>, <<"event", 1>> >>]>>,
+  <<H("handshake"), B("handshake", 1), [a |-> "b3", r |-> << <<"members", 1>>, <<"stats", 1>>, <<"auth", 1>> >>]>>,
+  <<[a |-> "b3", r |-> << <<"handshake", 1>>, <<"auth", 1>>, <<"stats", 1>> >>]>>,
+  <<[a |-> "b3", r |-> << <<"handshake", 1>>, <<"members", 1>>, <<"auth", 1>> >>]>> }
+
 GenInit == Init /\ sel = 0 /\ plan = <<>>
 
-Start == steps = 0 /\ (\E k \in BOOLEAN : Conf(k)) /\ plan' \in Plans /\ sel' = 0
+Start == steps = 0 /\ (\E k \in BOOLEAN : Conf(k)) /\ plan' \in Plans \cup BatchPlans /\ sel' = 0
 
 Forced ==
   /\ steps >= 1 /\ plan # <<>> /\ sel = 0
-  /\ IF Head(plan).a = "hdr" THEN SendHdr(Head(plan).cmd) ELSE SendBody(Head(plan).v)
+  /\ CASE Head(plan).a = "hdr" -> SendHdr(Head(plan).cmd)
+       [] Head(plan).a = "b3"  -> Batch(B3(Head(plan).r[1], Head(plan).r[2], Head(plan).r[3]))
+       [] OTHER                -> SendBody(Head(plan).v)
   /\ plan' = Tail(plan) /\ sel' = 0
 
 AnyHdr == \E c \in Cmds : SendHdr(c)
-Pick == steps >= 1 /\ plan = <<>> /\ sel = 0 /\ sel' \in 1..10 /\ UNCHANGED <<vars, plan>>
+Pick == steps >= 1 /\ plan = <<>> /\ sel = 0 /\ sel' \in 1..13 /\ UNCHANGED <<vars, plan>>
 Do ==
   /\ sel # 0 /\ sel' = 0 /\ UNCHANGED plan
   /\ CASE sel \in 1..4 -> IF cst # "" THEN SendBody(1) ELSE AnyHdr
@@ -37,6 +50,8 @@ Do ==
        [] sel = 7      -> IF cst # "" THEN SendBody(1) ELSE SendHdr("handshake")
        [] sel = 8      -> IF cst # "" THEN SendBody(1) ELSE SendHdr("auth")
        [] sel = 9      -> IF steps > 4 THEN SendJunk ELSE AnyHdr
+       [] sel \in {11, 12} -> IF cst # "" THEN SendBody(1) ELSE \E r1 \in BReqs \ {<<"leave", 1>>}, r2 \in BReqs : Batch(B2(r1, r2))
+       [] sel = 13     -> IF cst # "" THEN SendBody(1) ELSE \E r1 \in BReqs \ {<<"leave", 1>>}, r2 \in BKey, r3 \in BKey : Batch(B3(r1, r2, r3))
        [] sel = 10     -> IF cst # "" THEN SendBody(1) ELSE AnyHdr
 Skip == sel # 0 /\ sel' = 0 /\ UNCHANGED <<vars, plan>>
 GenNext == Start \/ Forced \/ Pick \/ Do \/ Skip
